@@ -9,7 +9,11 @@ From VF Require Import Common.Base C12.Model C12.Spec.
 Local Open Scope Z_scope.
 
 Inductive arange := Untimed | Rng (L U : Z).
-Inductive pres := Sure | Maybe.
+(* Sure: stored at every explanation; Maybe: stored at some, with this value/range when stored;
+   Wild: nothing is known about the key (an entry of a Load whose deadline fell inside the Load's own clock
+   bracket, over a key that may already hold something else): every observation on it is accepted until the
+   next definite store, hit or export. *)
+Inductive pres := Sure | Maybe | Wild.
 Record aent := { av : Z; ar : arange; ap : pres }.
 Definition amap := list (Z * aent).
 
@@ -30,20 +34,24 @@ Definition may_live (r : arange) (a : Z) : bool :=
 Definition may_expired (r : arange) (b : Z) : bool :=
   match r with Untimed => false | Rng L U => L <? b end.
 
+Definition wild (ae : aent) : bool := match ap ae with Wild => true | _ => false end.
+(* does the abstract entry allow the concrete entry (v, d) *)
+Definition fits (ae : aent) (v d : Z) : bool := wild ae || ((av ae =? v) && in_range_b d (ar ae)).
+
 Definition miss_ok (abs : amap) (k b : Z) : bool :=
   match m_get abs k with
   | None => true
-  | Some ae => match ap ae with Maybe => true | Sure => may_expired (ar ae) b end
+  | Some ae => match ap ae with Sure => may_expired (ar ae) b | _ => true end
   end.
 
 Definition absent_ok (abs : amap) (k : Z) : bool :=
   match m_get abs k with
   | None => true
-  | Some ae => match ap ae with Maybe => true | Sure => false end
+  | Some ae => match ap ae with Sure => false | _ => true end
   end.
 
 Definition nsure (abs : amap) : nat :=
-  length (filter (fun p => match ap (snd p) with Sure => true | Maybe => false end) abs).
+  length (filter (fun p => match ap (snd p) with Sure => true | _ => false end) abs).
 
 Fixpoint ksorted_b {E} (l : list (Z * E)) : bool :=
   match l with
@@ -67,6 +75,7 @@ Definition new_range (a b ttl : Z) : arange :=
 (* a sweep at some t in [a,b] collects d iff d <> 0 and 0 <= fl d <= fl t.
    d <= a (and 0 <= d)  ->  collected at every t (fl monotone);   d > b + g  ->  kept at every t *)
 Definition asweep_ent (a b : Z) (p : Z * aent) : option (Z * aent) :=
+  if wild (snd p) then Some p else
   match ar (snd p) with
   | Untimed => Some p
   | Rng L U => if (0 <=? L) && (U <=? a) then None
@@ -74,23 +83,29 @@ Definition asweep_ent (a b : Z) (p : Z * aent) : option (Z * aent) :=
                else Some (fst p, {| av := av (snd p); ar := ar (snd p); ap := Maybe |})
   end.
 
-Definition arestore (a b : Z) (data : list (Z * entry)) : amap :=
+(* Load at some instants in [a,b] (one clock reading per entry) onto the abstract state [abs]:
+   0 < d < a: expired at every instant, not loaded;  d <= 0 or b <= d: loaded at every instant;
+   otherwise loaded or not: Maybe over an absent key, Wild over a key that already has an abstract entry *)
+Definition aload (a b : Z) (data : list (Z * entry)) (abs : amap) : amap :=
   fold_left (fun m ke =>
                let d := snd (snd ke) in
                if (0 <? d) && (d <? a) then m
-               else m_put (fst ke) {| av := fst (snd ke); ar := exact d;
-                                      ap := if (d <=? 0) || (b <=? d) then Sure else Maybe |} m)
-            data [].
+               else if (d <=? 0) || (b <=? d)
+                    then m_put (fst ke) {| av := fst (snd ke); ar := exact d; ap := Sure |} m
+                    else m_put (fst ke) {| av := fst (snd ke); ar := exact d;
+                                           ap := match m_get m (fst ke) with None => Maybe | Some _ => Wild end |} m)
+            data abs.
+Definition arestore (a b : Z) (data : list (Z * entry)) : amap := aload a b data [].
 
 Definition export_ok (abs : amap) (l : list (Z * entry)) : bool :=
   ksorted_b l
   && forallb (fun p => match m_get abs (fst p) with
-                       | Some ae => (av ae =? fst (snd p)) && in_range_b (snd (snd p)) (ar ae)
+                       | Some ae => fits ae (fst (snd p)) (snd (snd p))
                        | None => false
                        end) l
   && forallb (fun p => match ap (snd p) with
-                       | Maybe => true
                        | Sure => match m_get l (fst p) with Some _ => true | None => false end
+                       | _ => true
                        end) abs.
 
 Definition astep (abs : amap) (s : tstep) : option amap :=
@@ -103,12 +118,12 @@ Definition astep (abs : amap) (s : tstep) : option amap :=
       if absent_ok abs k then Some (m_put k {| av := v; ar := new_range a b ttl; ap := Sure |} abs) else None
   | OSetIfAbsent k v ttl, OutBool false =>
       match m_get abs k with
-      | Some ae => Some (m_put k {| av := av ae; ar := ar ae; ap := Sure |} abs)
+      | Some ae => if wild ae then Some abs else Some (m_put k {| av := av ae; ar := ar ae; ap := Sure |} abs)
       | None => None
       end
   | OReplace k v ttl, OutBool true =>
       match m_get abs k with
-      | Some ae => if may_live (ar ae) a
+      | Some ae => if wild ae || may_live (ar ae) a
                    then Some (m_put k {| av := v; ar := new_range a b ttl; ap := Sure |} abs) else None
       | None => None
       end
@@ -116,7 +131,7 @@ Definition astep (abs : amap) (s : tstep) : option amap :=
   | ODelete k, OutUnit => Some (m_del k abs)
   | OGet k, OutGet (Some (v, d)) =>
       match m_get abs k with
-      | Some ae => if (av ae =? v) && in_range_b d (ar ae) && ((d <=? 0) || (a <=? d))
+      | Some ae => if fits ae v d && ((d <=? 0) || (a <=? d))
                    then Some (m_put k {| av := v; ar := exact d; ap := Sure |} abs) else None
       | None => None
       end
@@ -129,6 +144,7 @@ Definition astep (abs : amap) (s : tstep) : option amap :=
       then Some (map (fun p => (fst p, {| av := fst (snd p); ar := exact (snd (snd p)); ap := Sure |})) l)
       else None
   | ORestore data, OutUnit => Some (arestore a b data)
+  | OLoad data, OutUnit => Some (aload a b data abs)
   | _, _ => None
   end.
 
@@ -225,6 +241,7 @@ Definition dstep (dm : dmap) (s : tstep) : option dmap :=
   | OSweep, OutUnit => dsweep a b dm
   | OExport, OutExport l => if list_eqb kv_eqb (map kv_abs dm) (map kv_conc l) then Some dm else None
   | ORestore data, OutUnit => drestore a b data []
+  | OLoad data, OutUnit => drestore a b data dm
   | _, _ => None
   end.
 
